@@ -131,6 +131,22 @@ func genModuleSet(r *prng.R, o genModOpts) *ModSet {
 		ms.Mods = append(ms.Mods, m)
 	}
 	kinds := map[string]bool{}
+	// two modules whose paths differ only in '/' versus '_' (pkg/m3.ddp and pkg_m3.ddp): distinct modules all the same
+	if !dirHeavy && r.Chance(0.12) {
+		var inDir, top []*gmModule
+		for _, m := range ms.Mods[1:] {
+			if d := filepath.Dir(m.Path); d == "." {
+				top = append(top, m)
+			} else if !strings.Contains(d, "/") {
+				inDir = append(inDir, m)
+			}
+		}
+		if len(inDir) > 0 && len(top) > 0 {
+			a, b := prng.Pick(r, inDir), prng.Pick(r, top)
+			b.Path = strings.ReplaceAll(a.Path, "/", "_")
+			kinds["similar_paths"] = true
+		}
+	}
 	// declarations
 	for _, m := range ms.Mods {
 		if m.Idx == 0 {
